@@ -1,9 +1,10 @@
 import RpmVerif.Driver.Common
 import RpmVerif.Model.PkgFiles
 import RpmVerif.Spec.Extract
+import RpmVerif.Gen.CompressionLevels
 /-!
-Driver for C12. Op `extract <package> <archive|-> <dest> <jail>` (see harness/src/c12.rs for the wire
-format). The package is decoded with the header model (`Hdr.parsePackage`) and `PkgFiles.extractInput`,
+Driver for C12. Op `extract <package> <archive|-> <dest> <jail> [via=…] [umask=<octal>] [uid=<n>]` (see
+harness/src/c12.rs for the wire format). The package is decoded with the header model (`Hdr.parsePackage`) and `PkgFiles.extractInput`,
 the FS model runs `Fs.extract` on the jail's initial state, and the observation
 `<ok|err|panic> outside=<…> tree=<…>` is predicted textually.
 
@@ -52,7 +53,7 @@ def parseJail (spec : String) : Option Fs :=
       | ["l", hp, ht] => match bytesOfHex hp, bytesOfHex ht with
         | some p, some t => some ((textPath p, Node.symlink t) :: l) | _, _ => none
       | _ => none) (some [])
-  nodes.map fun l => ⟨l.reverse, []⟩
+  nodes.map fun l => ⟨l.reverse, [], 0o022⟩
 
 def sortedPaths (ps : List Path) : List (Bytes × Path) :=
   ((ps.eraseDups).map (fun p => (pathText p, p))).mergeSort (fun a b => bytesLe a.1 b.1)
@@ -104,10 +105,10 @@ def inputClass (inp : Input) : String :=
   else if !noBelowLink inp then "below-link"
   else "odd"
 
-/-- the destination does not exist and all its proper ancestors are directories (what the doc comment of
-`extract` asks of the caller) -/
+/-- the destination does not exist, all its proper ancestors are directories (what the doc comment of
+`extract` asks of the caller) and its components are names a file system takes (`TargetReady.short`) -/
 def targetReady (jail : Fs) (dest : Path) : Bool :=
-  dest ≠ [] && (jail.get dest).isNone &&
+  dest ≠ [] && dest.all (fun c => decide (c.length ≤ nameMax)) && (jail.get dest).isNone &&
     (List.range dest.length).all (fun k => match jail.get (dest.take k) with | some (.dir _) => true | _ => false)
 
 def judge (dest : Path) (ready : Bool) (inp? : Option Input) (impl : String) : String :=
@@ -134,32 +135,64 @@ def judge (dest : Path) (ready : Bool) (inp? : Option Input) (impl : String) : S
           then "holds" else "fails:unfaithful"
         else "holds"
 
+/-- an unprivileged run is predicted (with the root semantics of `Model/Fs.lean`, which knows no `EACCES`) only where
+permission bits cannot bind: a benign package - no path visited twice - whose directory entries all keep `u+wx`, under a
+umask that leaves `u+wx` on the directories `create_dir_all` makes, into a ready destination. The jail belongs to the user. -/
+def permFree (inp : Input) (umask : Nat) : Bool :=
+  benign inp && umask &&& 0o300 == 0 && inp.items.all (fun it => it.kind != .dir || it.perm &&& 0o300 == 0o300)
+
+/-- POSSIBLE DEFECT, left to the coordinator (notes in the T12 report): as an UNPRIVILEGED user `extract` cannot unpack a
+package that has a directory entry without `u+wx` (e.g. 0555) and anything below it, because `set_permissions` on the
+directory comes before its children are created (`EACCES`); tar / cpio postpone directory modes for that reason. The
+property text does not mention privileges; the framework's stated assumption is "root" (`propcfg/C12.py trusted_base`).
+With `false` such runs are outside the faithfulness clause (containment and no-panic are judged as always; the cases
+carry the branch label `…-user-unpredicted`; witness: corpus/C12/unprivileged-readonly-dir.case). Set to `true` to have
+them judged `fails:unprivileged-readonly-dir`. -/
+def judgeUnprivilegedFaithful : Bool := false
+
+def optOf (opts : List String) (k : String) : Option String := opts.findSome? (field (k ++ "="))
+
 def handle (op : String) (args : List String) (impl : String) : String :=
   -- `extractmem12 <spec> …`: `extract` on the un-reparsed value `build()` returned for <spec>; the remaining arguments are those
   -- of `extract` with <package> = the bytes that value writes (the harness checks that): predicted "same as parse"
   let args := if op == "extractmem12" then args.drop 1 else args
-  -- an optional 5th token `via=…` says how the harness SPELLED the destination for `extract` (relative, through
-  -- "..", through a symbolic link of its own): the directory meant — and therefore the model — is the same
-  let args := match args with
-    | [a, b, c, d, v] => if v.startsWith "via=" then [a, b, c, d] else args
-    | _ => args
-  match args with
+  -- options after the four positional arguments: `via=…` says how the harness SPELLED the destination for `extract`
+  -- (relative, through "..", through a symbolic link of its own): the directory meant - and therefore the model - is the
+  -- same; `umask=<octal>` is the process' mask (part of the model's state), `uid=<n>` an unprivileged user owning the jail
+  let opts := args.drop 4
+  match args.take 4 with
   | [hp, ha, hd, js] =>
-    match bytesOfHex hp, (if ha == "-" then some none else (bytesOfHex ha).map some), bytesOfHex hd, parseJail js with
+    let umask := ((optOf opts "umask").bind parseOctal).getD 0o022
+    let uid := ((optOf opts "uid").bind String.toNat?).getD 0
+    -- the codecs `decompress_stream` has an arm for in the build at hand: rpm-rs' default cargo features, plus bzip2
+    -- unless this is the `feat=nobz` binary (Gen.cargoDefaultFeatureTypes: scraped from Cargo.toml)
+    let nobz := opts.contains "feat=nobz"
+    let supported : Nat → Bool := fun v =>
+      v == 0 || Gen.cargoDefaultFeatureTypes.contains v || (!nobz && Gen.compressionVariants[v]? == some "Bzip2")
+    match bytesOfHex hp, (if ha == "-" then some none else (bytesOfHex ha).map some), bytesOfHex hd, (parseJail js).map (fun j => { j with umask := umask }) with
     | some pb, some arch, some dtext, some jail =>
       match relComps dtext with
       | none => badReq "dest"
       | some dest =>
         match parsePackage pb with
         | .ok p =>
-          match extractInput p arch with
+          match extractInput p arch supported with
           | none => answer "*" (judge dest (targetReady jail dest) none impl) "compressed-no-archive"
           | some inp =>
             let r := extract inp dest jail
-            let m := s!"{statusOf r.out} outside={outsideOf dest jail r.fs} tree={treeOf dest r.fs}"
+            let predicted := uid == 0 || (permFree inp umask && targetReady jail dest)
+            -- what the faithfulness clause is judged under: a ready destination, and - for an unprivileged user - permission
+            -- bits that cannot bind (or the switch above)
+            let ready := targetReady jail dest && (uid == 0 || permFree inp umask || (judgeUnprivilegedFaithful && umask &&& 0o300 == 0))
+            let v0 := judge dest ready (some inp) impl
+            let v := if uid != 0 && v0 == "fails:unfaithful" && !permFree inp umask then "fails:unprivileged-readonly-dir" else v0
+            let m := if predicted then s!"{statusOf r.out} outside={outsideOf dest jail r.fs} tree={treeOf dest r.fs}" else "*"
             let st := (impl.splitOn " ").headD ""
             let esc := if (impl.splitOn " outside=none ").length == 2 then "" else "-escaped"
-            answer m (judge dest (targetReady jail dest) (some inp) impl) s!"{inputClass inp}{if targetReady jail dest then "" else "-notready"}-{st}{esc}-n{min inp.items.length 3}"
+            let who := if uid == 0 then "" else if predicted then "-user" else "-user-unpredicted"
+            let um := (if umask == 0o022 then "" else "-umask") ++ (if nobz then "-nobz" else "") ++
+              (match arch, inp.tailOk with | some _, false => "-zcut" | _, _ => "")
+            answer m v s!"{inputClass inp}{if targetReady jail dest then "" else "-notready"}-{st}{esc}-n{min inp.items.length 3}{um}{who}"
         | _ => answer "parse-err" "dontcare" "parse-err"
     | _, _, _, _ => badReq "args"
   | _ => badReq "arity"
